@@ -87,7 +87,11 @@ def build_events(desc, shift=0, session_order=None, queue=None, late=False, evs=
     if evs is None:
         evs = [build_ev(s, shift) for s in sessions]
     # (else: EV objects handed in by the caller, e.g. the cars of an earlier simulation after their public reset())
-    events = [PluginEvent(e.arrival, e) for e in evs] + [RecomputeEvent(t + shift) for t in desc.get("recompute", [])]
+    arrive = PluginEvent
+    if desc.get("arrival_event") == "user":
+        from .userext import ValetArrival as arrive  # a user-defined event class derived from the documented EVEvent base
+    hold = set(desc.get("hold_back", []))  # sessions whose plug-in event the caller adds later, from inside the run
+    events = [arrive(e.arrival, e) for e in evs if e.session_id not in hold] + [RecomputeEvent(t + shift) for t in desc.get("recompute", [])]
     if late:  # the caller fills the queue only after the simulator has been constructed on it
         return (queue if queue is not None else EventQueue()), evs, events
     if queue is not None:  # an existing (e.g. drained) queue object is refilled and used again
